@@ -5,7 +5,7 @@ from props import c17_util as U
 
 ID = "C17"
 RUN_MODULE = "Run.Run_C17"
-GEN_FILES = []
+GEN_FILES = ["Gen_supergates.v"]
 RULE = ("lint-clean acyclic blackbox-free circuits of <= 22 nodes: fan-out-free trees, nested reconvergent cones (diamonds inside "
         "diamonds over a common stem), 2-5 outputs combining shared blocks, random DAGs with fan-in <= 2 (limit_fanin is then the "
         "identity), and a class with gates of 3-5 operands (the limited circuit is recorded by calling limit_fanin(c, 2) in the same "
@@ -147,10 +147,13 @@ LEVEL_TEXT = ("Theorems (all circuits, all lists): the four checkers check_shape
               "circuit: types kept, fan-in = fan-in in L intersected with the node set, the root is an output). That the construction always "
               "passes the checkers (dominator-tree argument) is NOT proved (C17_full stays a Definition): per run the clauses are decided by "
               "the verified checkers on the list the implementation returned, i.e. translation validation. The super-circuit clause is "
-              "oracle-level: after fill_blackbox of every supergate the circuit is compared with the original on all input valuations.")
-LEVEL_NOTE = ("Trusted: Coq kernel + vm_compute, std++, harness canonicalisation and the recorded limit_fanin(c, 2) result (made by a second "
+              "oracle-level: after fill_blackbox of every supergate the circuit is compared with the original on all input valuations. "
+              "The constants of the source (limit 2, the two dominator-tree thresholds, the output guard, the name pieces) are regenerated "
+              "on every run by a fail-closed translator plug-in that also compares the surrounding statements; C17_tables_ok is the "
+              "obligation on them.")
+LEVEL_NOTE = ("Trusted: Coq kernel + vm_compute, std++, gen/plugins/supergates.py (statement shapes), harness canonicalisation and the recorded limit_fanin(c, 2) result (made by a second "
               "call in the same process; plausibility-checked in Coq: interface, bound 2, identity when nothing exceeds the bound). "
               "networkx.immediate_dominators is external: the model replaces it by the definition of dominance (unreachable from the output "
               "once the dominator is removed) and the tie is the set comparison of the results. Base/Api.v fill_blackbox/add_blackbox are the "
               "C07-validated API model. List order is never compared (sets of Circuit objects iterate by id); it is judged by check_topo.")
-TECHNIQUE = "verified checkers (translation validation of the implementation's output) + mirrored Coq model + vm_compute correspondence"
+TECHNIQUE = "regenerated constants + verified checkers (translation validation of the implementation's output) + mirrored Coq model + vm_compute correspondence"
